@@ -47,6 +47,64 @@ Theorem C17_three_way_spec_partial :
 Proof. exact three_way_spec_gen. Qed.
 Print Assumptions C17_three_way_spec_partial.
 
+(* ---- round 2: the hypotheses above discharged for the real encoder and the document order ---- *)
+Theorem C17_varint_mono : forall a b, lex_cmp (varint a) (varint b) = (a ?= b).
+Proof. exact varint_mono. Qed.
+Print Assumptions C17_varint_mono.
+
+Theorem C17_loc_order_full :
+  forall p q, Forall key_ok p -> Forall key_ok q ->
+    cmp_keys_with varint_length (ekey p) (ekey q) = doc_cmp p q.
+Proof. exact loc_order. Qed.
+Print Assumptions C17_loc_order_full.
+
+Theorem C17_three_way_doc_spec :
+  forall L R,
+    StronglySorted (klt tcmp) L -> StronglySorted (klt tcmp) R ->
+    ForallOrdPairs (unrelated path_prefix path_same_arr) L -> ForallOrdPairs (unrelated path_prefix path_same_arr) R ->
+    three_way_doc L R = three_way_spec_result L R.
+Proof. exact three_way_doc_spec. Qed.
+Print Assumptions C17_three_way_doc_spec.
+
+Theorem C17_json_diff_sorted :
+  forall a b, wf_json a = true -> wf_json b = true -> StronglySorted (klt tcmp) (json_diff a b).
+Proof. exact json_diff_sorted. Qed.
+Print Assumptions C17_json_diff_sorted.
+
+(* Full statement (refuted below): forall well-formed b l r, merge_json b l r = merge_spec b l r. *)
+Theorem C17_merge_json_partial :
+  forall b l r, wf_json b = true -> wf_json l = true -> wf_json r = true ->
+    merge_side_conditions b l r = true -> merge_json b l r = merge_spec b l r.
+Proof. exact merge_json_partial. Qed.
+Print Assumptions C17_merge_json_partial.
+
+(* op_algebra (partial: commutation on disjoint paths and index legs are not proved) *)
+Theorem C17_unchanged_same : forall p m d v d', walk m p d v = ROk d' false -> d' = d.
+Proof. exact unchanged_same. Qed.
+Print Assumptions C17_unchanged_same.
+
+Theorem C17_set_then_lookup : forall p d v d', keys_only p = true ->
+  walk MSet p d v = ROk d' true -> lookup p d' = Some v.
+Proof. exact set_then_lookup. Qed.
+Print Assumptions C17_set_then_lookup.
+
+Theorem C17_remove_then_lookup : forall p d d', keys_only p = true -> p <> [] -> wf_json d = true ->
+  walk MRemove p d JNull = ROk d' true -> lookup p d' = None.
+Proof. exact remove_then_lookup. Qed.
+Print Assumptions C17_remove_then_lookup.
+
+Theorem C17_oracle_on_model_loc : forall p q, Forall key_ok p -> Forall key_ok q ->
+  oracle (CLoc p q, OLoc false (ekey p) (ekey q) (cmp_code (cmp_keys (ekey p) (ekey q)))) = true.
+Proof. exact oracle_on_model_loc. Qed.
+Print Assumptions C17_oracle_on_model_loc.
+
+Theorem C17_oracle_on_model_merge : forall b l r,
+  wf_json b = true -> wf_json l = true -> wf_json r = true -> merge_side_conditions b l r = true ->
+  mres_eqb (merge_spec b l r) (merge_json b l r) = true ->
+  oracle (CMerge b l r, OMerge (mobs_of (merge_json b l r)) (mobs_of (merge_json b l r)) [] [] [] []) = true.
+Proof. exact oracle_on_model_merge. Qed.
+Print Assumptions C17_oracle_on_model_merge.
+
 Theorem C17_merge_json_refuted_prefix_siblings :
   exists b l r, wf_json b = true /\ wf_json l = true /\ wf_json r = true /\
     merge_spec b l r = MConflict /\
